@@ -79,6 +79,16 @@ func c15Ops(base []histOp) []histOp {
 		histOp{Kind: "evalstring", Src: "{{ name.upper().lower().capitalize().reverse().repeat(3).truncate(5, '..') }} {{ 'a,b,c'.split(',').reverse().append('d').prepend('z').slice(1, 4) }} {{ 3.5.ceil() + 2.2.floor() + 7.abs() }} {{ 12.decimal() }} {{ '  x '.trim().len() }} {{ items.len() + name.first().len() }} {{ true.then('y', 'n') }}", Data: d},
 		histOp{Kind: "evalstring", Src: "{{ user.name }} {{ user.boss.name }} @each(t in user.tags){{ t }}@end {{ n + 1 }} {{ m.p }}", Data: dp},
 		histOp{Kind: "string", Name: "plain", Data: dp}, histOp{Kind: "response", Name: "failing", Data: dp},
+		// renders that fail half-way through a construct that has set something up - when the variable of a loop is bound
+		// (elements of two kinds, a name that is visible with another kind, the reserved name), in a later pass, in a
+		// component argument, in a slot body - next to loops that succeed: a failing call returns what it returns alone
+		// and leaves nothing behind for the calls that overlap or follow it
+		histOp{Kind: "evalstring", Src: "@each(it in mixed)<{{ it }}>@end", Data: (&spec.Data{}).Add("mixed", spec.Slice(spec.T(spec.TAny), spec.Any(spec.String("one")), spec.Any(spec.IntOf(spec.TInt, 2)), spec.Any(spec.String("three"))))},
+		histOp{Kind: "evalstring", Src: "@each(name in items)<{{ name }}>@end", Data: d}, histOp{Kind: "evalstring", Src: "@each(loop in items)<{{ loop }}>@end", Data: d},
+		histOp{Kind: "string", Name: "home", Data: specData(map[string]any{"name": "Mix", "flag": true}).Add("items", spec.Slice(spec.T(spec.TAny), spec.Any(spec.IntOf(spec.TInt, 1)), spec.Any(spec.String("x"))))},
+		histOp{Kind: "evalstring", Src: "@each(a in items)@each(b in [1, 'x'])[{{ a }}{{ b }}]@end@end", Data: d}, histOp{Kind: "evalstring", Src: "@for(i = 0; i < 3; i = 'x')<{{ i }}>@end", Data: d},
+		histOp{Kind: "evalstring", Src: "@each(i in items)<{{ i }}>@end|@each(i in items)[{{ i * 2 }}]@end|@each(a in items)@each(b in items){{ a * b }},@end@end", Data: d},
+		histOp{Kind: "string", Name: "inloop", Data: d}, histOp{Kind: "string", Name: "greet", Data: d},
 		// @dump of a value nested deeper than anything dumped in this process before (see c15Run)
 		histOp{Kind: "deep-dump"}, histOp{Kind: "deep-dump"},
 		histOp{Kind: "string", Name: "missing/one", Data: d}, histOp{Kind: "response", Name: "missing/two", Data: d}, histOp{Kind: "string", Name: "missing/three", Data: nil},
